@@ -215,8 +215,8 @@ def rule_staging(fx, rep):
         return None
 
     for p, f in sorted(fx.fns.items()):
-        if not p.startswith('wnaf::Wnaf::<') or 'mir' not in f:
-            continue
+        if not p.startswith('wnaf::Wnaf::<') or 'mir' not in f or '{closure' in p or not f.get('name'):
+            continue        # (closures written inside the methods are interpreted with them)
         nm = f['name']
         if nm == 'new':
             continue
